@@ -13,7 +13,8 @@ def sh(cmd, **kw):
 
 
 def main():
-    ids = sys.argv[1:] or sorted(d for d in os.listdir(SEEDED) if os.path.isdir(os.path.join(SEEDED, d)))
+    rows = []
+    ids = [a for a in sys.argv[1:] if not a.startswith("--")] or sorted(d for d in os.listdir(SEEDED) if os.path.isdir(os.path.join(SEEDED, d)))
     assert sh("git -C /repo status --porcelain").stdout.strip() == "", "/repo is not clean"
     for i in ids:
         d = os.path.join(SEEDED, i)
@@ -21,7 +22,11 @@ def main():
         props = meta.get("check_properties") or [meta["property"]]
         r = sh("git -C /repo apply %s" % os.path.join(d, "patch.diff"))
         if r.returncode != 0:
+            r = sh("git -C /repo apply --3way %s" % os.path.join(d, "patch.diff"))
+        if r.returncode != 0:
             print(i, "PATCH DOES NOT APPLY", r.stdout)
+            rows.append((i, meta["property"], "patch no longer applies to HEAD", "", meta.get("needs") or ""))
+            sh("git -C /repo checkout -- . ; git -C /repo reset -q")
             continue
         try:
             for p in props:
@@ -32,9 +37,22 @@ def main():
                 print("%-12s %-4s %s %s" % (i, p, "DETECTED" if detected else "MISSED", "(no-failing-input-found)" if nfi else ""))
                 for l in lines[:3]:
                     print("      ", l)
+                import re
+                m = re.search(r"(\d+) cases, (\d+) corr failures, (\d+) prop failures", out)
+                rows.append((i, p, ("DETECTED" + (" (no-failing-input-found)" if nfi else "")) if detected else "MISSED",
+                             "%s of %s cases fail PROP, %s fail CORR" % (m.group(3), m.group(1), m.group(2)) if m else "", (meta.get("needs") or "")[:300]))
         finally:
-            sh("git -C /repo checkout -- .")
+            sh("git -C /repo checkout -- . ; git -C /repo reset -q")
     assert sh("git -C /repo status --porcelain").stdout.strip() == ""
+    if "--write" in sys.argv:
+        with open(os.path.join(SEEDED, "RESULTS.md"), "w") as f:
+            f.write("# Seeded changes: which checks catch which\n\nEach change was written by a sub-agent that saw only the property text and a scratch worktree of /repo,\n"
+                    "confirmed independently (tools/confirm_seeded.py: existing suite passes with it, demo fails with it, passes without),\n"
+                    "then applied to /repo, checked with `./check <property> quick`, and undone (tools/run_seeded.py --write).\n\n"
+                    "| seeded change | check | outcome | failing cases in the quick run | needs |\n|---|---|---|---|---|\n")
+            for r in rows:
+                f.write("| %s | %s | %s | %s | %s |\n" % tuple(str(x).replace("|", "/").replace("\n", " ") for x in r))
+        print("wrote seeded/RESULTS.md")
 
 
 if __name__ == "__main__":
